@@ -4,7 +4,7 @@ CONFIG = dict(
     rule="real NewMirroredBlobAccess + NewLocalBlobReplicator (both directions) over two fault-injecting in-memory replicas; "
          "systematic family first (Get: 4 placements x both parities x {no fault, NOT_FOUND/UNAVAILABLE injected at each of the calls}; Put: 4 placements x {none, A, B, both fail}; "
          "FindMissing over 2 objects: 16 placements x a fault at each FindMissing/Get/Put call; GetCapabilities x parity), each with a random replica-buffer flavour "
-         "(validated byte slice / reader-backed CAS / CAS byte slice) and consumption method (ToByteSlice/ToChunkReader/IntoWriter/ToReader); "
+         "(validated byte slice / reader-backed CAS / CAS byte slice) and consumption method (ToByteSlice/ToChunkReader/IntoWriter; ToReader is supported for replay only, see manifest note); "
          "then random histories of 1-6 (thorough 1-12) operations over 1-4 (1-6) objects, 55% of operations with 1-2 faults on calls the operation makes, 30% with differing content versions per replica; "
          "25% hostile (faults on arbitrary keys incl. NOT_FOUND on uploads, code 0/negative, duplicate digests, shadowed fault entries); "
          "non-trivial = some operation failed or changed a replica; distinct = distinct input",
